@@ -1,6 +1,9 @@
-"""./check <id> --replay <path>: re-run a recorded counterexample against the real build."""
+"""./check <id> --replay <path>: re-run a recorded counterexample against the real build of /repo's current tree.
+
+Exit 1 + VIOLATION line if the recorded violation reproduces, exit 0 if it does not (e.g. after a fix), exit 2 if the
+record cannot be replayed natively (Kani harness failures: re-run the check; roles that depend on uninterpreted libm
+values)."""
 import json
-import sys
 
 from mirsym import validate as V
 
@@ -9,19 +12,44 @@ def main(prop, path):
     v = json.load(open(path))
     print('property %s role %s' % (v.get('property'), v.get('role')))
     print('detail: %s' % v.get('detail'))
-    w = v.get('witness')
-    if w is None:
-        print('no byte witness recorded: %s' % json.dumps({k: v[k] for k in v if k not in ('job',)}, default=str)[:2000])
-        return 2
-    kind = v.get('replay_kind', 'decode')
-    if kind == 'decode':
-        for profile in ('debug', 'release'):
-            r = V.native(['decode ' + w], profile)[0]
-            print('[%s] %s' % (profile, json.dumps(r)[:1500]))
+    ok, note = None, ''
+    if v.get('step') is not None:
+        from checks import step_replay
+        step_replay.build()
+        ok, note = step_replay.judge(v)
+        print('native step: %s' % json.dumps(v.get('native'), default=str)[:1500])
+    elif v.get('kani'):
+        note = 'Kani harness failure: re-run ./check %s' % prop
     else:
-        req = v.get('replay_request')
-        for profile in ('debug', 'release'):
-            r = V.native([req], profile)[0]
-            print('[%s] %s' % (profile, json.dumps(r)[:1500]))
-    print('VIOLATION property=%s replay=%s' % (prop, path))
-    return 1
+        V.build_replay('debug')
+        V.build_replay('release')
+        fn = None
+        if prop == 'C05' or v.get('replay_kind') == 'cpr':
+            from checks import c05
+            fn = c05.replay
+        elif prop == 'C19':
+            from checks import c19
+            fn = c19.replay_violation
+        elif prop == 'C03':
+            from checks import c03
+            fn = c03.replay
+        elif prop == 'C11':
+            from checks import c11
+            fn = c11.replay
+        elif v.get('witness') is not None and v.get('predicted') is not None:
+            from checks import decode_driver
+            fn = decode_driver.replay_violation
+        if fn is not None:
+            ok = fn(v)
+            note = 'native: %s' % json.dumps(v.get('native'), default=str)[:1500]
+        else:
+            note = 'no native replay recorded for this role'
+    print(note)
+    if ok is True:
+        print('VIOLATION property=%s replay=%s' % (prop, path))
+        return 1
+    if ok is False:
+        print('does not reproduce on the current tree')
+        return 0
+    print('not replayable natively')
+    return 2
